@@ -373,6 +373,26 @@ func C14(r *vf.Run) {
 				}
 				img := mem.New(g.U64())
 				genProgram(g, &s, img, 40+g.Intn(80))
+				selfmod := g.Intn(8) == 0
+				if selfmod {
+					// a loop that rewrites operands of its own instructions on every pass (a counter kept in an
+					// immediate, a patched address): each pass is traced from the bytes as they are then
+					//   LDA #v ; INC A ; STA long <operand of the LDA> ; STA long <low byte of the LDX operand> ; LDX abs ; BRA loop
+					s.P |= 0x20
+					s.PC = uint16(0x0400 + g.Intn(0xF000))
+					k, pc := uint32(s.K)<<16, s.PC
+					put := func(at uint16, b ...byte) {
+						for j, x := range b {
+							img.Ov[k|uint32(at+uint16(j))] = x
+						}
+					}
+					put(pc, 0xA9, g.U8(), 0x1A,
+						0x8F, byte(pc+1), byte((pc+1)>>8), s.K,
+						0x8F, byte(pc+12), byte((pc+12)>>8), s.K,
+						0xAE, g.U8(), g.U8(),
+						0x80, 0xF0)
+					w.cells["twin:self-modifying-loop"]++
+				}
 				stale := g.Intn(3) == 0
 				budget := uint64(50 + g.Intn(500))
 				target := g.U32() & 0xFFFFFF
